@@ -49,6 +49,22 @@ DuplicateParam(S) ==
 (* ENTRY_<UPPER(name)> / <UPPER(name)>_WORKGROUP_SIZE: entry points whose names differ only in case get the same constant *)
 EntryConstClash(S) ==
   \E i, j \in DOMAIN S.entries : i # j /\ Has(S.entries[i], "upper") /\ S.entries[i].upper = S.entries[j].upper
+(* An identifier pattern resolves to a constant of that name when one is in scope: a scalar WGSL constant (exported at the root of  *)
+(* the module) named like a parameter or local variable of a root-level generated function turns that binding into a constant pattern. *)
+LocalNames(S) ==
+  {"device", "source"}
+  \cup (IF \E i \in DOMAIN S.entries : S.entries[i].stage \in {"vertex", "fragment"} THEN {"module", "entry"} ELSE {})
+  \cup (IF \E i \in DOMAIN S.entries : S.entries[i].stage = "fragment" THEN {"targets"} ELSE {})
+  \cup (IF S.overrides # << >> THEN {"entries"} ELSE {})
+  \cup (IF S.overrides # << >> /\ \E i \in DOMAIN S.entries : S.entries[i].stage \in {"vertex", "fragment"} THEN {"overrides"} ELSE {})
+  \cup (IF \E i \in DOMAIN S.overrides : Has(S.overrides[i], "default") THEN {"value"} ELSE {})
+  \cup (IF Resources(S) # << >> THEN {"pass"} \cup { "bind_group" \o Resources(S)[i].group : i \in DOMAIN Resources(S) } ELSE {})
+  \cup (IF \E i \in DOMAIN S.entries : S.entries[i].stage = "vertex" /\ \E j \in DOMAIN S.entries[i].params : S.entries[i].params[j].k = "struct"
+        THEN {"step_mode"} \cup UNION { { StructDef(S, S.entries[i].params[j].ty).snake : j \in { x \in DOMAIN S.entries[i].params : S.entries[i].params[x].k = "struct" /\ Has(StructDef(S, S.entries[i].params[x].ty), "snake") } }
+                                         : i \in { y \in DOMAIN S.entries : S.entries[y].stage = "vertex" } }
+        ELSE {})
+ConstShadowsLocal(S) == \E i \in DOMAIN S.consts : ~(Has(S.consts[i], "nonscalar") /\ S.consts[i].nonscalar) /\ S.consts[i].name \in LocalNames(S)
+
 PredictedCauses(S, o) ==
   (IF SerdeBigArray(S, o) THEN {"SerdeBigArray"} ELSE {})
   \cup (IF NonPodField(S, o) THEN {"NonPodField"} ELSE {})
@@ -58,4 +74,5 @@ PredictedCauses(S, o) ==
   \cup (IF NameClash(S) THEN {"NameClash"} ELSE {})
   \cup (IF DuplicateParam(S) THEN {"DuplicateParam"} ELSE {})
   \cup (IF EntryConstClash(S) THEN {"EntryConstClash"} ELSE {})
+  \cup (IF ConstShadowsLocal(S) THEN {"ConstShadowsLocal"} ELSE {})
 =============================================================================
